@@ -205,6 +205,20 @@ func TestC12(t *testing.T) {
 		for _, ln := range []int{12, 16, 17, 252, 255} {
 			emitDecodeOptions(c, "typed-len", []dhcpmsg.DHCPOpt{{Option: code, Data: randBytes(r, ln)}})
 		}
+		// payloads that mean something to the net package in other shapes: IPv4-mapped 16-byte forms, all-zero and all-one strings
+		mapped := append(append(make([]byte, 10), 0xff, 0xff), randBytes(r, 4)...)
+		mappedMask := append(append(make([]byte, 10), 0xff, 0xff), 255, 255, 240, 0)
+		for _, pl := range [][]byte{mapped, mappedMask, make([]byte, 16), append(make([]byte, 12), 1, 2, 3, 4)} {
+			emitDecodeOptions(c, "typed-shape", []dhcpmsg.DHCPOpt{{Option: code, Data: pl}})
+		}
+		for ln := 1; ln <= 20; ln++ {
+			ones := make([]byte, ln)
+			for i := range ones {
+				ones[i] = 0xff
+			}
+			emitDecodeOptions(c, "typed-shape", []dhcpmsg.DHCPOpt{{Option: code, Data: make([]byte, ln)}})
+			emitDecodeOptions(c, "typed-shape", []dhcpmsg.DHCPOpt{{Option: code, Data: ones}})
+		}
 		// a later option of the same code replaces an earlier one
 		emitDecodeOptions(c, "typed-dup", []dhcpmsg.DHCPOpt{{Option: code, Data: randBytes(r, 4)}, {Option: code, Data: randBytes(r, 1+r.Intn(8))}})
 	}
